@@ -94,6 +94,27 @@ def judge(c: Campaign, spec: dict[str, Any], run: Run, desc: Any, extra=()) -> N
         else:
             done = all(fin)
         outstanding[r] = not done
+    # a NOT_STARTED stage behind a stage that ended in a halt status (a STOPPED failure lets the other branches go on, but what
+    # hangs off the stopped stage never runs) is not outstanding work: no task of it would ever execute
+    def failed_by_then(r: str) -> bool:
+        s_ = m[r]
+        if s_.get("cof"):
+            return False
+        return any(t.get("b") == "fail" and any(e["stage"] == r and e["task"] == i and e["step"] <= t_accept for e in led) for i, t in enumerate(s_["tasks"]))
+
+    halted_eff = {r for r in m if status_at[r] in oracles.HALT or (status_at[r] != "NOT_STARTED" and failed_by_then(r))}
+    blocked: set[str] = set()
+    grew = True
+    while grew:
+        grew = False
+        for r, s in m.items():
+            if r not in blocked and status_at[r] == "NOT_STARTED" and any(u in halted_eff or u in blocked for u in s["req"]):
+                blocked.add(r)
+                grew = True
+    stopped_then = any(m[r].get("stop") for r in halted_eff)
+    for r in blocked:
+        if stopped_then:
+            outstanding[r] = False
     in_effect_finished = not any(outstanding.values())
     if run.step_bound_hit:
         c.violation("no-quiescence-after-cancel", case, f"messages still deliverable after {run.steps} deliveries")
